@@ -355,6 +355,15 @@ func (s *sim) checkGenesisLogs() {
 			s.viol("C13", "genesis-state-differs/"+diffSig(d), fmt.Sprintf("deposit log of %d entries: zrnt != spec: %s", n, d))
 			return
 		}
+		// ... and the root of the state the library built is the root of that content by the specification's schema
+		if sr, err := sszmodel.StateRoot(spec, m); err != nil {
+			s.res.Harness = "sszmodel: " + err.Error()
+			s.stop = true
+			return
+		} else if zr := zst.HashTreeRoot(stdHashFn()); zr != common.Root(sr) {
+			s.viol("C13", "genesis-state-root", fmt.Sprintf("deposit log of %d entries: every field of the genesis state equals the specification's, but the state reports root %s and the same content merkleised from scratch has root %x", n, zr, sr))
+			return
+		}
 		zv, err := phase0.IsValidGenesisState(spec, zst)
 		mv := refspec.IsValidGenesisState(spec, m)
 		if err != nil || zv != mv {
